@@ -101,6 +101,16 @@ func c14Run(fsys fs.FileSystem, dir string, cfg explore.Config, base *explore.Ba
 		if err != nil {
 			break
 		}
+		// key and value of one pair are independent slices: growing the key in place must not touch the value
+		vsnap := append([]byte(nil), v...)
+		if spare := k[len(k):cap(k)]; len(spare) > 0 {
+			for j := range spare {
+				spare[j] = 0x44
+			}
+		}
+		if !bytes.Equal(v, vsnap) {
+			return fmt.Sprintf("the value returned by Next changed from %q to %q when the caller wrote into the spare capacity of the KEY returned by the same call (append(key, ...))", trunc(vsnap), trunc(v))
+		}
 		scribble(k)
 		scribble(v)
 	}
@@ -290,7 +300,7 @@ func runC14(c *explore.Ctx) {
 		same, other, newKey string
 		depth, realDepth    int
 	}
-	spaces := []sp{{"S2", "ROLL", "a", "e", "n", 3, 2}, {"S3", "ROLL", "a", "c", "n", 3, 2}, {"CH", "ROLL", "o0", "h0", "y", 2, 2}, {"S4", "ROLL", "e", "a", "n", 3, 0}}
+	spaces := []sp{{"S2", "ROLL", "a", "e", "n", 3, 2}, {"S3", "ROLL", "a", "c", "n", 3, 2}, {"CH", "ROLL", "o0", "h0", "y", 2, 2}, {"S4", "ROLL", "e", "a", "n", 3, 0}, {"SP", "BIGC", "o0", "h0", "n1", 2, 1}}
 	if c.Thorough() {
 		spaces = []sp{{"S2", "ROLL", "a", "e", "n", 4, 3}, {"S3", "ROLL", "a", "c", "n", 4, 3}, {"CH", "ROLL", "o0", "h0", "y", 3, 3}, {"S4", "ROLL", "e", "a", "n", 4, 3}, {"SP", "BIGC", "o0", "h0", "n1", 3, 2}, {"S2", "ROLL1", "b", "a", "n", 4, 3}}
 	}
